@@ -86,7 +86,7 @@ check(
     "recorded state = L1, step conformance = L2).",
     "Bounds: <= 3 workers, <= 3 clients, 2 schedule elements, iteration-based, time-period based and eternal tasks, unthrottled; hand-written scenario families are exhaustive in TLC, a seeded generated family (parallels of 1-3 tasks, clients cap, completed-by task/any) is simulated and run on the real actors. Trusted: the reproduction of "
     "Thespian's delivery semantics in harness/simactor.py; executor/actor thread interleaving only at request boundaries.",
-    "TLA+ actor-protocol spec + TLC safety and liveness checking; replay of TLC behaviours/counterexamples into the real actors; TLC trace validation",
+    "TLA+ actor-protocol spec + TLC safety and liveness checking; replay of TLC behaviours/counterexamples into the real actors; TLC trace validation of simulated races and (informational) of real multi-process races recorded through environment-guarded hooks, per-process logs merged by causality",
     engine="tlc+simactor",
 )
 check(
